@@ -21,6 +21,11 @@ pub fn verif_root() -> PathBuf {
     PathBuf::from(std::env::var("VERIF_ROOT").unwrap_or_else(|_| "/verif".to_string()))
 }
 
+/// Root of the repository under test (overridable for scratch copies).
+pub fn repo_root() -> PathBuf {
+    PathBuf::from(std::env::var("VERIF_REPO").unwrap_or_else(|_| "/repo".to_string()))
+}
+
 // ---------------------------------------------------------------------------------------------
 // determinism shim
 
